@@ -776,6 +776,13 @@ def check_metrics_core(rep, fl):
     b = facts.body(MET + "::add")
     ia = calls_to(b, "metrics::MetricsInner::add")
     ok = len(ia) == 1 and [norm(x) for x in b.call_args(ia[0][1])][1:] == [V("typ"), V("hash"), V("delta")]
+    if not ia:
+        # through the crate's own `map(|m| m.add(typ, hash, delta))` helper: the call sits in the closure
+        for x in descendants(facts, b):
+            for bi_, t_ in calls_to(x, "metrics::MetricsInner::add"):
+                ia.append((bi_, t_))
+                ok = [norm(in_parent_terms(facts, x, y, stop_at=b)) for y in x.call_args(t_)][1:] == [V("typ"), V("hash"), V("delta")]
+        ok = ok and len(ia) == 1
     rep.check(ok, "R17.6", fl, b, "Metrics::add forwards", "Metrics::add forwards (typ, hash, delta) unchanged to the Op metrics", "Metrics::add does not forward its arguments")
     # R17.7 exhaustiveness
     adt = facts.adts.get("metrics::MetricType")
@@ -1130,6 +1137,13 @@ def check_C15(rep, fl):
     # the worker is built by PolicyProcessor::new(..) or by the struct literal itself
     procs = [ctor_fields(facts, wh.call_expr(t, True)) for _, t in calls_to(wh, fl.pproc + "::new")]
     procs += [(e[2], agg_fields(e)) for bi, si, st, e in agg_nodes(wh, fl.pproc.split("::")[-1])]
+    # ... or inside an associated `spawn(inner, items_rx, stop_rx)` that builds the worker from its parameters
+    for _, t_ in calls_to(wh, fl.pproc + "::spawn"):
+        sb_ = facts.body(fl.pproc + "::spawn", required=False)
+        if sb_ is not None and not (sb_.arg_count >= 1 and sb_.local_name.get(1) == "self"):
+            m_ = {V(sb_.local_name.get(i_ + 1, "arg%d" % (i_ + 1))): norm(a_) for i_, a_ in enumerate(wh.call_args(t_))}
+            for bi, si, st, e in agg_nodes(sb_, fl.pproc.split("::")[-1]):
+                procs.append((e[2], {k_: norm(subst(norm(v_), m_)) for k_, v_ in agg_fields(e).items()}))
     procs = [x for x in procs if x is not None]
     ok = f is not None and len(procs) == 1
     if ok:
@@ -1167,7 +1181,8 @@ def check_C15(rep, fl):
             c = x.callee_of(t)
             if callee_matches(c, "Receiver::recv") or callee_matches(c, "Receiver::try_recv") or callee_matches(c, "SelectedOperation::recv"):
                 args = [norm(y) for y in x.call_args(t)]
-                if any(mentions(y, ("field", V("self"), "items_rx")) for y in args):
+                if any(mentions(y, ("field", V("self"), "items_rx")) for y in args) or \
+                        any(canon_self(x, sub) == ("field", V("self"), "items_rx") for y in args for sub in subexprs(y) if sub[0] == "field"):
                     recvs.append(strip_generics(x.raw["root"]))
     other = "r#async" if fl.name == "sync" else "::sync::"
     recvs = [r for r in recvs if other not in r]
